@@ -5,7 +5,8 @@ from .. import core, lmm
 class C16(core.Prop):
     id = "C16"
     drivers = ["lmm_driver"]
-    sizes = {"quick": 3000, "thorough": 60000}
+    technique = "property-based testing: differential against an exact-rational progressive-filling max-min solver plus a fairness characterisation predicate"
+    sizes = {"quick": 15000, "thorough": 400000}
     rule = ("Same histories as C15, solver in {maxmin, bmf}. After every solve: (a) maxmin: every enabled consuming variable below its bound "
             "has a saturated constraint on which its rate*penalty is the largest; (b) on shared-only systems the rates equal the unique weighted "
             "max-min allocation computed by an exact progressive-filling solver over fractions.Fraction; (c) bmf: every consuming variable below its "
